@@ -34,7 +34,10 @@ def judge(module, records, constants=None, chunk=20000):
             common.machinery_failure('judge %s: only %d of %d records evaluated\n%s' % (
                 module, r.generated, len(part), r.out[-3000:]))
         for p in r.payloads:
-            if isinstance(p, dict):         # trace validators: [tid, line]
+            if isinstance(p, dict) and 'i' in p:    # index plus what the specification expected
+                bad.append(off + int(p['i']) - 1)
+                total.setdefault('details', {})[off + int(p['i']) - 1] = p
+            elif isinstance(p, dict):       # trace validators: [tid, line]
                 bad.append((off + int(p['tid']) - 1, int(p['line']) - 1))
             else:
                 bad.append(off + int(p) - 1)
@@ -42,4 +45,4 @@ def judge(module, records, constants=None, chunk=20000):
         total['distinct'] += r.distinct
         total['wall_s'] += r.wall
         total['runs'] += 1
-    return sorted(set(bad)), total
+    return sorted(set(bad), key=lambda x: x if isinstance(x, tuple) else (x, -1)), total
